@@ -197,9 +197,12 @@ def build(case, make_env=True, stream_override=None):
     # ---- input stream: list of (time_us, kind, payload) in insertion order
     stream = []
     mids = [s["p0"] for s in specs]
+    empty = set(case.get("empty_points", []))
     for gi, row in enumerate(case["bars"]):
         for ci, (mv, sp) in enumerate(row):
             mids[ci] = min(max(mids[ci] * mv, 1e-3), 1e7)
+            if gi in empty:
+                continue          # a grid timestep that bears no event at all (e.g. a holiday kept in the calendar)
             if specs[ci]["kind"] == "chain":
                 # one quote per listed contract that has not expired yet (term structure: +0.5% per contract)
                 now = dt(b.grid[gi])
